@@ -767,6 +767,8 @@ def check_C11(ctx):
     rep.rule("ERR-DROP", "MIR after drop elaboration: no Result<_, crate error> produced by a call or assignment reaches the Drop of its local (scope end or overwrite) on a normal path without having been moved, matched or borrowed")
     nd = rules_err.rule_err_drop(u, rep, DESER_SCOPE, errs=rules_err.DESER_ERRS)
     rep.floor("Result-typed MIR locals tracked in deser/impls", nd, 100)
+    rep.rule("ERR-TO-OK", "no function of deser/ and impls/ returns Ok on a path where it has observed the Err of a callee (a failed read is never turned into a value)")
+    rules_loader.rule_err_to_ok(u, rep, DESER_SCOPE, errs=rules_err.DESER_ERRS)
     rules_err.rule_who_calls(u, rep, {"std::io::Read::read", "std::io::Read::read_to_end", "std::io::Read::read_buf"}, DESER_SCOPE, "S-WHO",
                              "short reads must be handled by read_exact, whose contract turns a premature end of file into an error")
     n = rules_loader.rule_maplen(u, rep)
